@@ -13,6 +13,7 @@ from . import common, molprops
 
 SPEC = {
     "level": "exploration",
+    "suite_under_monitor": True,
     "technique": "runtime contract (icontract ensure) on serialize_molecule: independent grammar recogniser + canonical-layout validator",
     "rule": ("cases: graphs built directly (M1 n<=4, M2, M3, M4, M5 rare-element formulas, M5all), graphs produced by the molfile readers from V3000/V2000 "
              "texts incl. explicitly written default values (CHG=0/RAD=0/MASS=0, zero-valued M  CHG/RAD/ISO entries), graphs produced by the parser from "
